@@ -55,6 +55,11 @@ const (
 )
 
 func (a align) lpad(s string, w int) string {
+	if s == "" {
+		// Nothing to align; padding would only produce trailing
+		// blanks if this is the last cell on its line.
+		return s
+	}
 	switch a {
 	default:
 		return s
